@@ -44,6 +44,31 @@ def b_harnesses(tier):
             bound='direction %d; both states, gradients, dx, A, dt, gamma in (1,2] symbolic; Riemann solver and slope limiter = memoised nondeterministic functions; all limiter branches explored' % d))
     return H
 
+def hook_limit_uf(E, nm, av):
+    """F3: slope limiter = uninterpreted function of its four arguments plus the ground instances of its oddness and flatness
+    limit(-x,-a,-b,f) == -limit(x,a,b,f) for this application (the lemma is decided on the real code by F3_limit_odd)"""
+    import z3, irz
+    f = E.fp.uf('limit', 4); x, a, b, w = [z3.simplify(v) for v in av]
+    t = f(x, a, b, w)
+    if E.fp.reg(t):
+        E.fp.ax.append(f(z3.simplify(-x), z3.simplify(-a), z3.simplify(-b), w) == -t)
+        E.fp.ax.append(z3.Implies(a == b, t == a))         # lemma F3_limit_flat
+    return t
+def hook_signbit(E, nm, av):
+    import z3
+    return z3.simplify(av[0] < 0)        # i1 result (dx != 0 is assumed by the harness, so -0.0 does not arise)
+STUBS3 = {'~HLLCRiemannSolver14solve_for_flux': hook_riemann, '~Hydro5limitE': hook_limit_uf, '~_ZSt3maxIdERKT_S2_S2_': _minmax('max'), '~_ZSt3minIdERKT_S2_S2_': _minmax('min'), '~_ZSt7signbitd': hook_signbit}
+def f3_harnesses(tier):
+    H = [BHarness('F3_limit_odd', 'c04_ghost.cpp', 'h_f3_limit_odd', defs=['DIR=0'], strict=True, cflags=['-fopenmp'], timeout=900,
+            what='lemma: the real slope limiter Hydro::limit is odd, limit(-x,-a,-b,1/2) == -limit(x,a,b,1/2), on every path (used as the only fact about the limiter in F3)', bound='x, a, b symbolic; all branches of limit')]
+    H.append(BHarness('F3_limit_flat', 'c04_ghost.cpp', 'h_f3_limit_flat', defs=['DIR=0'], strict=True, cflags=['-fopenmp'], timeout=900,
+            what='lemma: between equal neighbour values the real slope limiter returns the cell value, limit(x,a,a,1/2) == a, on every path', bound='x, a symbolic; all branches of limit'))
+    for d in (0, 1, 2):
+        H.append(BHarness('F3_reflective_wall_dir%d' % d, 'c04_ghost.cpp', 'h_f3_reflective', defs=['DIR=%d' % d], noinline=True, stubs=STUBS3, strict=True, cflags=['-fopenmp'], timeout=900, perturb=True,
+            what='Hydro::do_ghost_flux_calculation with the real ReflectiveHydroBoundary: the face states handed to the Riemann solver are exact mirror images (equal density, pressure and tangential velocity, opposite normal velocity, unit normal along the wall axis), for lower and upper walls; exactly one solver call',
+            bound='wall normal %d; cell state, all 15 gradients, dx (either sign), A, dt, gamma symbolic; slope limiter = uninterpreted function with the two facts proved on the real code by F3_limit_odd and F3_limit_flat, Riemann solver = memoised nondeterministic function' % d))
+    return H
+
 SHAPES_Q = [(1, 1, 1), (2, 2, 2), (3, 2, 1), (1, 2, 3), (2, 3, 1)]
 SHAPES_T = SHAPES_Q + [(2, 1, 1), (1, 2, 1), (1, 1, 2), (3, 3, 3), (2, 1, 3), (1, 3, 2), (3, 1, 2)]
 def a_harnesses(tier):
@@ -65,7 +90,7 @@ def run(tier, only=None, pid='C04'):
     ev.outside += ['totals "up to round-off" over a whole grid, all layouts / thread counts (follows from F1+F2+C07 on paper)', 'positivity safeguards F4, ghost/reflective boundary F3, the 1.5 sound-speed wall clause, CFL']
     violations = []; broken = []
     try:
-        hb = [h for h in b_harnesses(tier) if not only or h.name.startswith(only)]
+        hb = [h for h in b_harnesses(tier) + (f3_harnesses(tier) if pid == 'C04' else []) if not only or h.name.startswith(only)]
         v, b = run_engine_b(pid, tier, hb, ev, work); violations += v; broken += b
         ha = [h for h in a_harnesses(tier) if not only or h.name.startswith(only)]
         v, b = run_engine_a(pid, tier, ha, ev, work); violations += v; broken += b
